@@ -39,6 +39,13 @@ type DScenario struct {
 	Handlers   []HSpec `json:"handlers"`
 	SaveFailAt int     `json:"saveFailAt"` // the k-th Save fails (0: never)
 	Steps      []DStep `json:"steps"`
+	LateAt     int     `json:"lateAt"` // handlers with when = "late" are registered after this many steps (traffic of their type has passed)
+}
+
+type DRegObs struct {
+	K  string `json:"k"` // dreg
+	ID string `json:"id"`
+	I  int    `json:"i"`
 }
 
 type Call struct {
@@ -206,7 +213,7 @@ func RunDispatch(t *testing.T, sc *DScenario) (recs []interface{}, failure strin
 			failure = "dispatch rig: logon did not succeed"
 		}
 		for _, hs := range sc.Handlers {
-			if hs.When != "pre" {
+			if hs.When != "pre" && hs.When != "late" {
 				register(hs)
 			}
 		}
@@ -218,6 +225,18 @@ func RunDispatch(t *testing.T, sc *DScenario) (recs []interface{}, failure strin
 		st.n, st.failAt = 0, sc.SaveFailAt
 		st.mu.Unlock()
 		for i, stp := range sc.Steps {
+			if i == sc.LateAt && i > 0 {
+				n := 0
+				for _, hs := range sc.Handlers {
+					if hs.When == "late" {
+						register(hs)
+						n++
+					}
+				}
+				if n > 0 {
+					recs = append(recs, DRegObs{"dreg", sc.ID, 0})
+				}
+			}
 			callErr := false
 			switch stp.A {
 			case "send":
